@@ -266,8 +266,16 @@ func (env *Zlisp) MakeSymbol(name string) *SexpSymbol {
 }
 
 func (env *Zlisp) GenSymbol(prefix string) *SexpSymbol {
-	symname := prefix + strconv.Itoa(env.nextsymbol)
-	return env.MakeSymbol(symname)
+	// a generated symbol must be new: skip counters whose name a
+	// script (or an earlier family member) has already interned,
+	// e.g. through (str2sym "__gensym42").
+	for {
+		symname := prefix + strconv.Itoa(env.nextsymbol)
+		if _, exists := env.symtable[symname]; !exists {
+			return env.MakeSymbol(symname)
+		}
+		env.nextsymbol++
+	}
 }
 
 func (env *Zlisp) CurrentFunctionSize() int {
